@@ -8,4 +8,6 @@ if [ "$1" = "--replay" ]; then
 fi
 TIER="${1:-${VERIF_TIER:-quick}}"; shift || true
 export VERIF_TMP="${VERIF_TMP:-/verif/.tmp}"; mkdir -p "$VERIF_TMP"
-exec env PYTHONPATH=/verif PYTHONDONTWRITEBYTECODE=1 /verif/.venv/bin/python -m vf "$ID" --tier "$TIER" "$@"
+# dev only: VERIF_OPTYX_SRC=<dir>/src analyses another checkout (e.g. a scratch worktree holding a seeded change)
+# instead of /repo, and VERIF_EVIDENCE_DIR redirects the evidence file; the registered commands use neither.
+exec env PYTHONPATH="${VERIF_OPTYX_SRC:+$VERIF_OPTYX_SRC:}/verif" PYTHONDONTWRITEBYTECODE=1 /verif/.venv/bin/python -m vf "$ID" --tier "$TIER" "$@"
